@@ -84,7 +84,32 @@ class E2Check:
         finally:
             shutil.rmtree(tmp, ignore_errors=True)
 
+    def run_closure(self):
+        """the library contracts this property's abstract writer / reader restate, discharged against
+        the real bodies (same machinery as C05 / C09), reported under this property"""
+        from checks.props import CLOSURES
+        from checks.common import PropertyCheck
+        cfg = CLOSURES.get(self.prop)
+        if cfg is None:
+            return 0, None
+        pc = PropertyCheck(self.prop, cfg, self.tier, self.seed)
+        rc = pc.run(write_evidence=False, label=cfg["title"])
+        summary = {"title": cfg["title"], "obligations": len(getattr(pc, "obls", [])),
+                   "discharged": getattr(pc, "discharged", 0),
+                   "functions_under_contract": [f["function"] for f in getattr(pc, "functions", [])],
+                   "functions_outside_fragment": getattr(pc, "outside", []), "exit": rc}
+        return rc, summary
+
     def run(self):
+        crc, closure = self.run_closure()
+        if crc == 3:
+            return 3
+        rc = self.run_e2(closure)
+        if crc in (1, 2) and rc == 0:
+            return crc
+        return max(rc, crc) if rc in (0, 1, 2) and crc in (0, 1, 2) and 1 in (rc, crc) and False else (1 if 1 in (rc, crc) else max(rc, crc))
+
+    def run_e2(self, closure=None):
         what = e2.WHAT_FOR[self.prop]
         try:
             pipe = e2.run_pipeline(what, self.tier, self.seed, repo.REPO)
@@ -231,7 +256,11 @@ class E2Check:
             "undecided": [u["obligation"] for u in undecided][:40],
             "known_findings_reported": known_lines,
             "what_verified": list(what),
+            "closure": closure,
         }
+        if closure:
+            cov["obligations"] += closure["obligations"]
+            cov["discharged"] += closure["discharged"]
         ev = {"property_id": self.prop, "tier": self.tier, "seed": self.seed, "level": "proof", "coverage": cov,
               "assumptions": BASE_ASSUMPTIONS[:4] + E2_ASSUMPTIONS, "wall_s": round(time.time() - self.t0, 2),
               "violations": len(violations)}
